@@ -24,14 +24,19 @@ Funcs == << Fn("idb", <<P("Both", TBytes)>>, <<>>, TBytes), Fn("idi", <<P("Both"
             Fn("ab", <<P("Field", AB)>>, <<>>, TBool), Fn("aa", <<P("Field", AB)>>, <<>>, AB),
             Fn("both", <<P("Field", TBool), P("Field", TBool)>>, <<>>, TBool),
             Fn("concat", <<>>, <<>>, TBytes), Fn("ctxfn", <<>>, <<>>, TInt) >>
-Sch == [fields |-> <<Fld("i", TInt), Fld("s", TBytes), Fld("b1", TBool), Fld("ai", AI), Fld("abytes", ABY), Fld("mbytes", TMap(TBytes)), Fld("vb", AB)>>,
+Sch == [fields |-> <<Fld("i", TInt), Fld("s", TBytes), Fld("b1", TBool), Fld("ai", AI), Fld("abytes", ABY), Fld("mbytes", TMap(TBytes)), Fld("vb", AB), Fld("ai2", AI)>>,
         funcs |-> Funcs, lists |-> <<>>, nne |-> TRUE]
 I(n) == VInt(IntOfNat(n))
 B(s) == VBytes(s)
 Ctxs == << [sch |-> 1, vals |-> <<I(1), B(<<97>>), VBool(TRUE), VArr(TInt, <<I(1), I(2)>>), VArr(TBytes, <<B(<<97>>), B(<<>>), B(<<98, 99>>)>>),
-                                   VMap(TBytes, <<[k |-> <<107>>, v |-> B(<<120>>)], [k |-> <<122>>, v |-> B(<<>>)]>>), VArr(TBool, <<VBool(FALSE), VBool(TRUE)>>)>>, lists |-> <<>>],
-            [sch |-> 1, vals |-> <<I(7), B(<<>>), VBool(FALSE), VArr(TInt, <<>>), VArr(TBytes, <<>>), VMap(TBytes, <<>>), VArr(TBool, <<>>)>>, lists |-> <<>>],
-            [sch |-> 1, vals |-> <<Nil, Nil, Nil, Nil, Nil, Nil, Nil>>, lists |-> <<>>] >>
+                                   VMap(TBytes, <<[k |-> <<107>>, v |-> B(<<120>>)], [k |-> <<122>>, v |-> B(<<>>)]>>), VArr(TBool, <<VBool(FALSE), VBool(TRUE)>>),
+                                   VArr(TInt, <<I(9)>>)>>, lists |-> <<>>],
+            [sch |-> 1, vals |-> <<I(7), B(<<>>), VBool(FALSE), VArr(TInt, <<>>), VArr(TBytes, <<>>), VMap(TBytes, <<>>), VArr(TBool, <<>>), VArr(TInt, <<>>)>>, lists |-> <<>>],
+            [sch |-> 1, vals |-> <<Nil, Nil, Nil, Nil, Nil, Nil, Nil, Nil>>, lists |-> <<>>],
+            \* mixed presence: s, ai, mbytes absent; abytes, ai2 present
+            [sch |-> 1, vals |-> <<I(1), Nil, VBool(TRUE), Nil, VArr(TBytes, <<B(<<97>>)>>), Nil, Nil, VArr(TInt, <<I(5), I(6)>>)>>, lists |-> <<>>],
+            \* the other way round
+            [sch |-> 1, vals |-> <<Nil, B(<<115>>), Nil, VArr(TInt, <<I(3)>>), Nil, VMap(TBytes, <<[k |-> <<107>>, v |-> B(<<121>>)]>>), Nil, Nil>>, lists |-> <<>>] >>
 Id(n) == [k |-> "id", name |-> n]
 LP == [k |-> "lp"]
 RP == [k |-> "rp"]
@@ -64,7 +69,8 @@ ArgShapes == << <<Id("s")>>,                                  \* 1  Bytes field
                 <<Id("i")>> \o Eq1,                          \* 18 bare comparison -> Bool
                 <<Id("vb")>>,                                \* 19 Array(Bool) field
                 <<LP, Id("ai")>> \o Each \o Eq1 \o <<RP>>,  \* 20 logical -> Array(Bool)
-                <<LitIp>> >>                                 \* 21 Ip literal
+                <<LitIp>>,                                   \* 21 Ip literal
+                <<Id("ai2")>> >>                             \* 22 another Array(Int) field
 NS == Len(ArgShapes)
 RECURSIVE Join(_)
 Join(args) == IF args = <<>> THEN <<>> ELSE IF Len(args) = 1 THEN ArgShapes[args[1]]
@@ -75,8 +81,12 @@ Arities(f) == IF Funcs[f].name = "concat" THEN {2, 3} ELSE IF Funcs[f].name = "c
 (* shapes used per position keep the product small but cover right / wrong kind, type, absence, map-each *)
 First == {1, 2, 3, 5, 6, 7, 8, 9, 10, 11, 13, 14, 15, 16, 18, 19, 20}
 Later == {1, 3, 5, 7, 8, 10, 11, 12, 15, 17, 21}
-Calls == UNION {UNION {{<<f, args>> : args \in {a \in [1..n -> 1..NS] : (n >= 1 => a[1] \in First) /\ \A j \in 2..n : a[j] \in Later}} : n \in Arities(f)} : f \in 1..Len(Funcs)}
-PartOf(c) == (c[1] % 4) = Part
+(* concat additionally takes whole arrays in every position *)
+FirstFor(f) == IF Funcs[f].name = "concat" THEN First \cup {22} ELSE First
+LaterFor(f) == IF Funcs[f].name = "concat" THEN Later \cup {14, 22} ELSE Later
+Calls == UNION {UNION {{<<f, args>> : args \in {a \in [1..n -> 1..NS] : (n >= 1 => a[1] \in FirstFor(f)) /\ \A j \in 2..n : a[j] \in LaterFor(f)}} : n \in Arities(f)} : f \in 1..Len(Funcs)}
+(* Part 0..3: functions by index modulo 4; Part 10 + f: the calls of function f only *)
+PartOf(c) == IF Part >= 10 THEN c[1] = Part - 10 ELSE (c[1] % 4) = Part
 Init == cas \in {c \in Calls : PartOf(c)}
 Next == FALSE /\ UNCHANGED cas
 Spec == Init /\ [][Next]_cas
